@@ -26,7 +26,7 @@ def quick_subset(cs, step):
     """every molecule with a stereogenic double bond, and every step-th of the rest"""
     keep, k = [], 0
     for name, smi in cs:
-        if "/" in smi or "\\" in smi:
+        if "/" in smi or "\\" in smi or name.startswith("keep_"):
             keep.append((name, smi))
         else:
             if k % step == 0:
